@@ -49,6 +49,11 @@ func main() {
 		case "--out":
 			i++
 			out = os.Args[i]
+		case "--deepchild":
+			i++
+			d, _ := strconv.Atoi(os.Args[i])
+			checks.DeepChild(d)
+			return
 		}
 	}
 	chk, ok := checks.Registry[id]
